@@ -70,7 +70,10 @@ pub fn check_with(c: &Case, ctx: &mut Ctx, via_default: bool) -> Result<(), Fail
         if t >= n + 2 {
             reached = true;
         }
-        if c.stride > 1 && t > n + 2 && i % c.stride != 0 && i + 1 != c.xs.len() {
+        // windows beyond 20 000 slots: the O(t) reference is strided during warm-up as well, except at its very
+        // beginning, around the 2^16-th input and where the window fills
+        let dense = t <= n + 2 && (n <= 20_000 || t + 2 >= n || (65_530..=65_540).contains(&t) || t <= 4);
+        if c.stride > 1 && !dense && i % c.stride != 0 && i + 1 != c.xs.len() {
             continue;
         }
         let tol = tau(t) * big + tol_floor(w.len());
@@ -285,18 +288,22 @@ pub fn run(g: &mut Global) {
                 v.push((k, n));
             }
         }
-        for n in [1025usize, 1500, 2500] {
+        for n in [1025usize, 1500, 2500, 6000, 10_000] {
             v.push((Kind::Mad, n));
+        }
+        // beyond 2^16 slots (a 16-bit counter, a u32 product of the count, a table sized for 65 536 entries)
+        for &(k, n) in &[(Kind::Sma, 65_537usize), (Kind::Wma, 65_537), (Kind::Sd, 70_001), (Kind::Bb, 66_000), (Kind::Min, 65_537), (Kind::Max, 65_600)] {
+            v.push((k, n));
         }
         v
     };
     let nbp = bigp.len() as u64;
     g.exhaustive(
         "large_periods",
-        nbp * g.tier.pick(2, 6),
+        nbp * g.tier.pick(3, 7),
         &move |i| {
             let (kind, n) = bigp[(i % nbp) as usize];
-            let regime = [0usize, 5, 7, 4, 1, 3][((i / nbp) % 6) as usize];
+            let regime = [0usize, 5, 6, 7, 4, 1, 3][((i / nbp) % 7) as usize];
             let mut s = seed ^ (i + 9).wrapping_mul(0x9E3779B97F4A7C15);
             let noise: Vec<f64> = (0..3 * n + 50).map(|_| unit(&mut s)).collect();
             let vals = expand(Domain::AnySign, regime, [1.0, 85.18, 1e5][(i % 3) as usize], unit(&mut s), &noise);
